@@ -473,3 +473,33 @@ def conditional_blocks_keep_exactly_the_active_branches(K, name, a, b):
             objs.append(K.call(PP._End))
     code = K.call(PP._resolve_sequence, objs, dict(ctx))
     K.ensure("exactly the active branches, in order", code == _expected_if(seq, ctx))
+
+
+# ------------------------------------------------------------------------------ a model written in several files
+import builtins as _builtins
+import io as _io
+from irispie import sources as SRC
+
+_FILES = {
+    "no newline at the end": ("!variables\n x\n% closing comment", "!parameters\n a\n", "!equations\n x = a;"),
+    "newlines at the end": ("!variables\n x\n", "!parameters\n a\n"),
+    "one file as a string": ("!variables\n x",),
+    "an empty file in between": ("!variables\n x", "", "!equations\n x = 1;"),
+}
+
+
+@contract("C04", targets=["irispie.sources:_combine_source_files_into_string"], instances=[(k,) for k in _FILES], cross=0)
+def source_files_are_joined_on_line_boundaries(K, key):
+    """A model spread over several files means the files read one after another: every file appears intact and in order,
+    and what separates two files is white space containing a line break - the last line of a file (a comment, a keyword)
+    never runs into the first line of the next one."""
+    contents = _FILES[key]
+    names = [f"file{i}.model" for i in range(len(contents))]
+    table = dict(zip(names, contents))
+    arg = names[0] if key == "one file as a string" else list(names)
+    out = K.stubbed(_builtins.open, lambda f, *a, **k: _io.StringIO(table[f]), "the file system: open(name) returns a reader of that file's text",
+                    lambda: K.call(SRC._combine_source_files_into_string, arg))
+    cores = [c.strip() for c in contents if c.strip()]
+    m = re.fullmatch(r"\s*" + r"(\s*)".join(re.escape(c) for c in cores) + r"\s*", out, flags=re.DOTALL) if isinstance(out, str) else None
+    K.ensure("the text of every file, intact and in order, and nothing else but white space", m is not None)
+    K.ensure("a line break between the last line of a file and the first line of the next", m is not None and all("\n" in g for g in m.groups()))
